@@ -3,7 +3,7 @@
 import json
 claimed = {
  "C01": ("one inductive production step (and 2-step recoveries, and the genesis step through the real NewManager) of the real publishBlockInternal, symbolically executed from go/ssa from an arbitrary invariant node state with arbitrary sequencer/executor responses; z3 decides every path", "store = map double (contract of C14), crypto/hash as uninterpreted functions with the standard axioms, batches <= 2 txs; see evidence bounds"),
- "C02": ("the real SyncLoop executed symbolically over every bounded delivery sequence and channel interleaving of the proposer's next two blocks, from an arbitrary synced state and from a first start (real NewManager on an empty store), plus a restart through the real NewManager: height monotone, no block applied without both parts, every complete block applied, identical hashes/txs/state roots", "2 blocks, <=2 (3) events per channel; open known finding C02-K1 (equal tx lists)"),
+ "C02": ("the real SyncLoop executed symbolically over every bounded delivery sequence and channel interleaving of the proposer's next two blocks, from an arbitrary synced state and from a first start (real NewManager on an empty store), plus a restart through the real NewManager: height monotone, no block applied without both parts, every complete block applied, identical hashes/txs/state roots", "2 blocks (3 in the stop-inside-a-run lemma), <=2 events per channel; cache files through a gob round-trip model; open known finding C02-K1 (equal tx lists)"),
  "C03": ("every admission gate for headers and signed data (DA ingress, P2P filter, the light-node Validate+Verify contract, execValidate) executed symbolically on an arbitrary third-party item: accepted implies the item carries the genesis proposer's key and verifies under it", "crypto as uninterpreted functions without unforgeability; go-header/libp2p replaced by their call contract; two open known findings on the light-node gate"),
  "C04": ("production step with a crash at every durable-write boundary, from an arbitrary invariant state and from a first start on an empty store (any initial height); restart through the real NewManager, nested second crash, then a crash-free step: restart always succeeds, height/state/blocks agree, committed blocks never replaced, production resumes", "store double with crash counter; cache files not modelled"),
  "C05": ("block application with a crash at every durable-write boundary (nested), from an arbitrary synced state and from a first start on an empty store; restart through the real NewManager, re-delivery in several orders: image consistent, blocks are the proposer's, node converges, DA scan position not past unapplied blobs", "2 blocks; caches empty after restart"),
